@@ -60,15 +60,13 @@ TAGS = {
 CORR = (1, 2, 3, 4, 5, 6, 7, 8, 9, 10)
 # oracle tag -> (correspondence tag that must be absent for the model to explain it,
 #                [(guard tag that must be present = guard conjunct false, finding id), ...])
-STALE = (201, 'C07-DECL-STALE-CAPTURE')
-CHAIN = (202, 'C07-CLEANUP-ALIAS-CHAIN')
 DROPDV = (205, 'C07-CLEANUP-DROPS-DV')
-FIRSTY = (207, 'C07-OBS-EXPR-FIRST-ASSIGNMENT')
-FIXOM = (209, 'C07-FIXED-THETAS-REMOVES-OMEGAS')
+# (C07-DECL-STALE-CAPTURE, C07-CLEANUP-ALIAS-CHAIN, C07-OBS-EXPR-FIRST-ASSIGNMENT and C07-FIXED-THETAS-REMOVES-OMEGAS are
+#  fixed in /repo: nothing excuses tags 11, 12, 14, 15, 21-24 any more, a recurrence is a VIOLATION)
 ORACLE = {
-    11: (1, [STALE]), 12: (2, [STALE, CHAIN]), 13: (2, [DROPDV]), 14: (1, [STALE]), 15: (2, [STALE, CHAIN, FIXOM]), 24: (2, [FIXOM]),
+    11: (1, []), 12: (2, []), 13: (2, [DROPDV]), 14: (1, []), 15: (2, []),
     16: (3, []), 17: (3, []), 18: (1, []), 19: (5, []), 20: (5, []),
-    21: (7, [FIRSTY]), 22: (8, [FIRSTY]), 23: (9, [FIRSTY]),
+    21: (7, []), 22: (8, []), 23: (9, []), 24: (2, []),
 }
 
 
@@ -182,7 +180,10 @@ def gen_spec(rng):
         # the condition reads only symbols that are never assigned, rational arithmetic only
         cl = ['APGR', 'ETA1', 'ETA2', 'TH2', 'TH3']
         c, d = rexpr(rng, cl, 1, 'pw', True), rexpr(rng, cl, 1, 'pw', True)
-        stmts.append(['Y', f'Piecewise(({rexpr(rng, LEAVES + defined, 2, fam, True)}, ({c}) > ({d})), (Y, True))'])
+        if rng.random() < 0.5:
+            stmts.append(['Y', f'Piecewise(({rexpr(rng, LEAVES + defined, 2, fam, True)}, ({c}) > ({d})), (Y, True))'])
+        else:                    # a second assignment that READS the first (Y = Y*a + b)
+            stmts.append(['Y', f'(Y)*({rexpr(rng, cl, 1, "pw", True)}) + {rexpr(rng, LEAVES + defined, 1, fam, True)}'])
     renames = []
     for _ in range(2):
         cand = THETAS + ETAS + EPSS + ['OM1', 'SI1'] + [d for d in defined if '(' not in d and d not in COLS] + ['Y']
@@ -493,6 +494,16 @@ def classify(ctx, spec, tags, info):
         ctx.coverage.setdefault('corr_disagreements', []).append({'spec': spec, 'tags': sorted(tags)})
         status = 'broken'
     return status
+
+
+def _has_alias_chain(spec):
+    al = set()
+    for l, r in spec['stmts']:
+        if l != 'ODE' and isinstance(r, str) and re.fullmatch(r'[A-Za-z_]\w*', r):
+            if r in al:
+                return True
+            al.add(l)
+    return False
 
 
 def run_specs(ctx, specs, label, quiet=False, mods=None, verdict='verdict'):
@@ -819,8 +830,7 @@ def corpus_oracle(ctx, n):
         if 33 in tags:
             key = h['refactoring'] + ': ' + info['error'][:60]
             stats['refactoring_raised'][key] = stats['refactoring_raised'].get(key, 0) + 1
-            fid = ('C07-CLEANUP-ALIAS-CHAIN' if 202 in tags and h['refactoring'] == 'cleanup_model'
-                   else 'C07-DECL-STALE-CAPTURE' if 201 in tags else None)
+            fid = None      # the findings that explained such refusals are fixed in /repo
             if fid and ctx.open_finding(fid):
                 stats['known'] += 1
                 kh = ctx.coverage.setdefault('known_hits', {})
@@ -944,6 +954,12 @@ def gradient_oracle(ctx, n):
 
 
 def run(ctx):
+    # the staging file known_findings.d/C07.json replaces entries of known_findings.json by id (as the maintainer's
+    # merge does)
+    byid = {}
+    for f in ctx.findings:
+        byid[f['id']] = f
+    ctx.findings = list(byid.values())
     ctx.build_gate(['C07'])
     ctx.trusted += [
         'harness/lib/sym2coq.py + coqterm.py (conversion of real sympy trees to Gallina terms); applied functions '
@@ -985,13 +1001,13 @@ def run(ctx):
         'impl_errors': {k: sum(1 for i in infos for e in i['errors'] if e == k)
                         for k in sorted({e for i in infos for e in i['errors']})},
         'guard_no_stale_capture_false': sum(1 for v in verdicts if 201 in v),
-        'guard_no_alias_chain_false': sum(1 for v in verdicts if 202 in v),
         'guard_rename_not_injective': sum(1 for v in verdicts for t in v if t == 203),
         'guard_inline_false': sum(1 for v in verdicts if 204 in v),
         'dv_is_alias': sum(1 for v in verdicts if 205 in v),
-        'dv_assigned_twice': sum(1 for v in verdicts if 207 in v),
+        'dv_assigned_twice': sum(1 for s in kept if sum(1 for l, _ in s['stmts'] if l == 'Y') > 1),
+        'alias_chains': sum(1 for s in kept if _has_alias_chain(s)),
         'shadowing_programs': sum(1 for v in verdicts if 208 in v),
-        'fixed_variance_parameter': sum(1 for v in verdicts if 209 in v),
+        'fixed_variance_parameter': sum(1 for s in kept if any(k[:2] in ('OM', 'SI') and v != 0 for k, v in s.get('fix', {}).items())),
         'strictly_valid_programs': sum(1 for v in verdicts if 211 not in v),
         'family': {k: sum(1 for s in kept if s.get('family') == k) for k in ('tr', 'pw')},
         'reassigning_programs': sum(1 for s in kept if len({l for l, _ in s['stmts']}) < len(s['stmts'])),
